@@ -130,3 +130,23 @@ package option
 //@   property C17
 //@   modifies nothing
 //@   ensures  result
+//
+// struct_fields_as_arguments / struct_fields_as_options: "builders and options not selected by a rule are
+// unchanged" - in particular the struct DEFINITION the argument refers to (shared with the schema object
+// and with the builder of the referred object) is only read: the action writes nothing that existed
+// before the call (write frame), returns options it built itself, and returns the option unchanged when
+// it does not apply.
+//@ func StructFieldsAsArgumentsAction$1
+//@   property C17
+//@   requires len(option.Assignments) >= 1 && len(option.Assignments[0].Path) >= 1
+//@   modifies spare-capacity
+//@   ensures  one: len(result) == 1 && fresh(result)
+//@   ensures  noargs: len(option.Args) < 1 ==> result[0] == option
+//@   loop 0:
+//@     invariant defaultfresh: newOpt.Default == nil || fresh(newOpt.Default)
+//
+//@ func StructFieldsAsOptionsAction$1
+//@   property C17
+//@   requires len(option.Assignments) >= 1
+//@   modifies spare-capacity
+//@   ensures  noargs: len(option.Args) < 1 ==> len(result) == 1 && result[0] == option
